@@ -2,6 +2,7 @@ import RactorModel.Extracted
 import RactorModel.Lemmas.AdmissionCore
 import RactorModel.Lemmas.AdmissionIds
 import RactorModel.Lemmas.AdmissionQueue
+import RactorModel.Lemmas.AdmissionOracle
 
 /-!
 # C02 — the mailbox delivers accepted messages once, in order
@@ -208,6 +209,16 @@ theorem wrong_type_send_changes_nothing (s : Shared) (id : Nat) (late bf : Bool)
 theorem status_monotone (g : G) (sched : List Tid) : g.sh.status ≤ (run g sched).sh.status :=
   (mono_run g sched).status
 
+/-- **The run-time oracle is a theorem of the model.** `Obs.violations` — the very function the
+driver evaluates on the implementation's end-of-case observations (handled at most once and only
+if Ok, every Ok handled unless stopped, nothing admitted after the close, count 0 and closed ⇒
+marker at quiescence, exactly one "Drained" exit after a drain, none without) — is empty for every
+end state of the model: all programs, all schedules, no op in flight, receiver ran until it blocked. -/
+theorem oracle_holds_of_model (progs : List (List Op)) (sched : List Tid)
+    (he : endState (run (init progs) sched) = true) :
+    (obsOf (run (init progs) sched)).violations = [] :=
+  violations_nil (reach_run progs sched) he
+
 /-! ### Source guards (E-SRC) -/
 
 /-- `send_message_unchecked` = status gate, admission, boxing, enqueue — in this order. -/
@@ -261,5 +272,6 @@ end C02
 #print axioms C02.nothing_handled_after_close
 #print axioms C02.wrong_type_send_changes_nothing
 #print axioms C02.status_monotone
+#print axioms C02.oracle_holds_of_model
 #print axioms C02.src_send_steps
 #print axioms C02.src_port_drop
